@@ -11,10 +11,19 @@ fn fmt_stub(_a: core::fmt::Arguments<'_>) -> String {
 // `parse_real` on EVERY valid UTF-8 string of at most 4 bytes that contains no '.', 'e', 'E' (those go to the
 // standard library's decimal-to-double conversion, which is not the subject): it must answer Some / None and never
 // panic, and a rational literal n/d must come back with exactly these digits.
+// `IntLiteral::from_str_radix` falls back to num-bigint's parser whenever the machine-word parser fails; for strings of
+// at most 4 bytes that only happens for malformed digits, which num-bigint rejects as well (same grammar).  The
+// fall-back is replaced by "rejected" (num-bigint's digit loops are not the subject and dominate the cost).
+fn bigint_from_str_radix_stub(_s: &str, _radix: u32) -> core::result::Result<num_bigint::BigInt, num_bigint::ParseBigIntError> {
+    // ParseBigIntError is a one-byte enum wrapper; 0 = "empty"
+    Err(unsafe { core::mem::transmute::<u8, num_bigint::ParseBigIntError>(0) })
+}
+
 #[kani::proof]
 #[kani::unwind(7)]
 #[kani::stub(std::rt::thread_cleanup, noop)]
 #[kani::stub(alloc::fmt::format, fmt_stub)]
+#[kani::stub(<num_bigint::BigInt as num_traits::Num>::from_str_radix, bigint_from_str_radix_stub)]
 fn lex_parse_real_total() {
     tag_init();
     let b: [u8; 4] = kani::any();
